@@ -2,6 +2,7 @@
 package main
 
 import (
+	"encoding/json"
 	"flag"
 	"fmt"
 	"os"
@@ -24,7 +25,20 @@ func main() {
 	wN := flag.Int("worker-n", 0, "(internal)")
 	journal := flag.String("journal", "", "(internal)")
 	list := flag.Bool("list", false, "list properties")
+	dump := flag.Int("dump-case", -1, "print case <index> of -prop/-tier/-seed as a replay file (to investigate an inconclusive case)")
 	flag.Parse()
+	if *dump >= 0 {
+		p := core.Lookup(*prop)
+		if p == nil {
+			fmt.Fprintln(os.Stderr, "unknown property")
+			os.Exit(2)
+		}
+		c := p.Gen(core.CaseRNG(*seed, p.ID(), *dump), *tier, *dump)
+		raw, _ := json.Marshal(c)
+		out, _ := json.MarshalIndent(core.ReplayFile{Property: p.ID(), Tier: *tier, Seed: *seed, Index: *dump, Sig: "dump", Case: raw}, "", " ")
+		fmt.Println(string(out))
+		return
+	}
 
 	if *list {
 		for _, id := range core.IDs() {
